@@ -129,3 +129,15 @@ Definition check_clientops (inp obs : V) : verdict :=
       end
   | _, _ => bad_case
   end.
+
+(* ---- glue for the family "startstorm": sessions in which Start / Protocol / accessor callers are released at one
+   instant on a fresh client; the model's statement for every such session is C19_launch_once_* (one launch) and
+   C19_same_address: input (sessions), obs (sessions with more than one launch or two addresses, sessions that hung) *)
+Definition check_startstorm (inp obs : V) : verdict :=
+  match inp, obs with
+  | VL [VI n], VL [VI bad; VI hung] =>
+      let good := (Z.eqb bad 0 && Z.eqb hung 0)%bool in
+      {| v_decoded := true; v_agree := good; v_oracle_impl := good; v_oracle_model := true;
+         v_model_obs := VL [VI 0%Z; VI 0%Z]; v_branch := VL [vbool (Z.ltb 0 n)] |}
+  | _, _ => bad_case
+  end.
